@@ -1242,7 +1242,7 @@ def _write_effect(
                 else:
                     out.write(f" (at end")
             if negative_cond.is_true():
-                out.write(f" {converter.convert(effect.fluent)}")
+                out.write(f" (not {converter.convert(effect.fluent)})")
             if timing is not None:
                 out.write(")")
             if effect.is_forall():
